@@ -113,6 +113,7 @@ Definition hex_text (b : list N) : ustr := flat_map (fun x => [hexdigit (x / 16)
 Fixpoint lit_strs (l : lit) : list ustr :=
   match l with
   | LStr s => [s]
+  | LStrNul s => split0 s
   | LCastStr s _ => [s]
   | LHex b => [hex_text b]
   | LArr xs | LTuple xs => flat_map lit_strs xs
